@@ -753,7 +753,9 @@ def run_case(case):
             dP = float(np.abs(Pn[b][:n4, :n4] - alone["dm"][0]).max())
             dT = abs(float(np.trace(Pn[b])) - float(np.trace(alone["dm"][0])))
             dE = abs(float(Ee[b]) - float(alone["Eelec"][0]))
-            tolP = 1e-10 + scfmon.K_MAX * eps * A
+            # both runs stop within one admissible step (15 eps A) of the same fixed point, on either side of it, and a
+            # Pulay row may take another path in the batch: 4 admissible steps
+            tolP = 1e-10 + 4.0 * scfmon.K_MAX * eps * A
             for name, val, tol in (("sp2_row_vs_alone_density", dP, tolP), ("sp2_row_vs_alone_trace", dT, n4 * tolP),
                                    ("sp2_row_vs_alone_Eelec", dE, 1e-9 + 20.0 * eps * A)):
                 if upd(name, val, tol):
